@@ -1,13 +1,12 @@
 /-
 C18 — property theorems: filtering preserves the mean, the time axis and the pass band.
 
-* Fourier projector: stated for the mathematical DFT over ℂ (`dft`, `idft`, `proj` below, with `ζ` a
-  primitive `N`-th root of unity, `ζ = e^{-2πi/N}` for `scipy.fftpack`).  The executable
-  `Nitime.C18.filteredFourierWith grid ub0 lb ub n x` is the `Float`-pair mirror of
-  `fun t => (proj ζ n (keepBin grid lb ub n) x t).re` — same mask `keepBin`, same index conventions;
-  this reading is part of the trusted base (TRUSTED_EXTRA in harness/c18.py).  `fourier_real`
-  shows that for real data and a ±-symmetric mask the inverse transform is already real, so
-  taking the real part loses nothing.
+* Fourier projector: proved for the textbook DFT over ℂ (`dft`, `idft`, `proj`, `ζ` a primitive `N`-th
+  root of unity, `ζ = e^{-2πi/N}` for `scipy.fftpack`) and TRANSFERRED to the executable text: the model's
+  `fourierProj` / `filteredFourierG` (written over `Model/Num.lean`'s scalar classes) with the ℝ/ℂ instances
+  and twiddles `ζ^m` are those objects (`fourierProj_eq_proj`, `fourierProjList_eq`, `filteredFourierG_eq`),
+  hence `model_fourier_is_projection / _idempotent / _linear / _mean / _real` are about the definitions the
+  driver runs.  Trusted: only the `Float` reading of that text (rounding, `cos/sin` table for `ζ^m`).
 * `restoreDC`, `filtfiltWrapper`, `firBandFractions`, `firPlan`, `boxcarFilter`, `shapeAxis`: the
   theorems are about the executable definitions themselves (field-polymorphic).
 * PARTIAL: FIR/IIR pass-band / stop-band behaviour depends on `firwin`, `iirdesign`, `filtfilt`
@@ -15,6 +14,7 @@ C18 — property theorems: filtering preserves the mean, the time axis and the p
 -/
 import Nitime.Model.C18
 import Nitime.Lemmas.Parseval
+import Nitime.Lemmas.NumReal
 import Mathlib.Algebra.Order.Field.Basic
 import Mathlib.Tactic.Ring
 import Mathlib.Tactic.FieldSimp
@@ -223,6 +223,95 @@ theorem fourier_pass_band (hN : 0 < N) (hζ : IsPrimitiveRoot ζ N) (grid : ℕ 
 
 end passband
 
+/-! ### the executable text: `fourierProj` of the model IS the masked inverse DFT
+
+`Nitime.C18.fourierProj` / `filteredFourierG` are written over the scalar classes of `Model/Num.lean`;
+with the `ℝ`/`ℂ` instances and twiddles `tw m = ζ^m` they are the textbook objects above, so every
+theorem of the previous section is a theorem about the model's own definitions (`model_…`).  What
+stays trusted is the `Float` reading of the same text (rounding; `cos/sin` for `ζ^m`). -/
+section model
+open Complex ComplexConjugate Nitime.Num
+variable {N : ℕ} {ζ : ℂ}
+
+/-- the tabulated version computes the same list -/
+theorem fourierProjList_eq {R K : Type} [RScalar R] [CScalar R K] (tw : ℕ → K) (N : ℕ) (keep : ℕ → Bool)
+    (x : ℕ → K) : fourierProjList tw N keep x = (List.range N).map (fourierProj tw N keep x) := by
+  have h : memoGet (memoArr N (maskedSpectrum tw N keep x)) (maskedSpectrum tw N keep x)
+      = maskedSpectrum tw N keep x := funext (memoGet_memoArr N _)
+  unfold fourierProjList fourierProj
+  simp only [h]
+
+theorem dftAt_eq_dft (hζ : ζ ^ N = 1) (x : ℕ → ℂ) (k : ℕ) :
+    dftAt (fun m => ζ ^ m) N x k = dft ζ N x k := dftAt_eq hζ x k
+
+theorem idftAt_eq_idft (hζ : ζ ^ N = 1) (hc : conj ζ = ζ⁻¹) (X : ℕ → ℂ) (t : ℕ) :
+    idftAt (fun m => ζ ^ m) N X t = idft ζ N X t := by
+  have hinv : ζ⁻¹ ^ N = 1 := by rw [inv_pow, hζ, inv_one]
+  unfold idftAt idft
+  rw [kscale_eq, ksum_eq]
+  congr 1
+  · simp
+  · refine Finset.sum_congr rfl fun k _ => ?_
+    rw [conj_complex, map_pow, hc, dftAt_eq.pow_mod_eq hinv, mul_comm t k]
+
+theorem fourierProj_eq_proj (hζ : ζ ^ N = 1) (hc : conj ζ = ζ⁻¹) (keep : ℕ → Bool) (x : ℕ → ℂ) :
+    fourierProj (fun m => ζ ^ m) N keep x = proj ζ N keep x := by
+  funext t
+  unfold fourierProj proj
+  rw [idftAt_eq_idft hζ hc]
+  congr 1
+  funext k
+  unfold maskedSpectrum
+  rw [dftAt_eq_dft hζ]; rfl
+
+variable (hN : 0 < N) (hζ : IsPrimitiveRoot ζ N) (hc : conj ζ = ζ⁻¹)
+include hN hζ hc
+
+/-- exact projection, about the model's own `dftAt` / `fourierProj` / `maskedSpectrum` -/
+theorem model_fourier_is_projection (keep : ℕ → Bool) (x : ℕ → ℂ) {k : ℕ} (hk : k < N) :
+    dftAt (fun m => ζ ^ m) N (fourierProj (fun m => ζ ^ m) N keep x) k
+      = maskedSpectrum (fun m => ζ ^ m) N keep x k := by
+  rw [fourierProj_eq_proj hζ.pow_eq_one hc, dftAt_eq_dft hζ.pow_eq_one, fourier_is_projection hN hζ keep x hk]
+  unfold maskedSpectrum; rw [dftAt_eq_dft hζ.pow_eq_one]; rfl
+
+theorem model_fourier_idempotent (keep : ℕ → Bool) (x : ℕ → ℂ) (t : ℕ) :
+    fourierProj (fun m => ζ ^ m) N keep (fourierProj (fun m => ζ ^ m) N keep x) t
+      = fourierProj (fun m => ζ ^ m) N keep x t := by
+  simp only [fourierProj_eq_proj hζ.pow_eq_one hc]
+  exact fourier_idempotent hN hζ keep x t
+
+omit hN hζ in
+theorem model_fourier_linear (hζ1 : ζ ^ N = 1) (keep : ℕ → Bool) (a b : ℂ) (x y : ℕ → ℂ) (t : ℕ) :
+    fourierProj (fun m => ζ ^ m) N keep (fun j => a * x j + b * y j) t
+      = a * fourierProj (fun m => ζ ^ m) N keep x t + b * fourierProj (fun m => ζ ^ m) N keep y t := by
+  simp only [fourierProj_eq_proj hζ1 hc]
+  exact fourier_linear keep a b x y t
+
+theorem model_fourier_mean (keep : ℕ → Bool) (h0 : keep 0 = true) (x : ℕ → ℂ) :
+    ksum N (fourierProj (fun m => ζ ^ m) N keep x) = ksum N x := by
+  rw [ksum_eq, ksum_eq, fourierProj_eq_proj hζ.pow_eq_one hc]
+  exact fourier_mean hN hζ keep h0 x
+
+/-- for real data and the code's (symmetric) mask the complex output equals its real part: the list
+`filteredFourierG` returns loses nothing -/
+theorem model_fourier_real (grid : ℕ → ℝ) (lb ub : ℝ) (x : ℕ → ℝ) (t : ℕ) :
+    fourierProj (fun m => ζ ^ m) N (keepBin grid lb ub N) (fun j => CScalar.ofReal (x j)) t
+      = ((fourierProj (fun m => ζ ^ m) N (keepBin grid lb ub N) (fun j => CScalar.ofReal (x j)) t).re : ℂ) := by
+  rw [fourierProj_eq_proj hζ.pow_eq_one hc]
+  have := fourier_real hN hζ hc (keepBin grid lb ub N) (fun k h0 hk => keepBin_symm grid lb ub N k h0 hk)
+    (fun j => ((x j : ℝ) : ℂ)) (fun j => Complex.conj_ofReal _) t
+  exact (Complex.conj_eq_iff_re.1 this).symm
+
+/-- the executable list is the real part of the masked inverse DFT, sample by sample -/
+theorem filteredFourierG_eq (keep : ℕ → Bool) (x : ℕ → ℝ) :
+    filteredFourierG (K := ℂ) (fun m => ζ ^ m) N keep x
+      = (List.range N).map fun t => (proj ζ N keep (fun j => ((x j : ℝ) : ℂ)) t).re := by
+  unfold filteredFourierG
+  rw [fourierProjList_eq, fourierProj_eq_proj hζ.pow_eq_one hc, List.map_map]
+  rfl
+
+end model
+
 /-! ### DC restoration and the filtfilt wrapper -/
 section dc
 variable {K : Type} [Field K] [CharZero K]
@@ -313,6 +402,26 @@ theorem firPlan_spec (fs lb ub : K) (order n : ℕ) (hfs : 0 < fs) (hn : order +
       · exact absurd (hu.1 h) (not_lt.2 h1)
     simp only [firPlan, firBandFractions, this, hn', if_false]
     rfl
+
+
+/-- **IIR band edges are fractions of the true Nyquist frequency**, branch by branch: band-pass asks
+for pass band `[lb, ub]/(Fs/2)`, low-pass (`lb = 0`) for `ub/(Fs/2)`, high-pass (`ub = None`) for `lb/(Fs/2)` -/
+theorem iirPlan_spec (fs lb ub : K) (hfs : 0 < fs) :
+    (0 < lb → ub < fs / 2 → (iirPlan fs lb (some ub)).map Prod.fst = some [lb / (fs / 2), ub / (fs / 2)] ∧
+        lb / (fs / 2) * (fs / 2) = lb ∧ ub / (fs / 2) * (fs / 2) = ub) ∧
+    ((iirPlan fs 0 (some ub)).map Prod.fst = some [ub / (fs / 2)]) ∧
+    (0 < lb → (iirPlan fs lb none).map Prod.fst = some [lb / (fs / 2)]) := by
+  have h2 : 0 < fs / 2 := by positivity
+  have hne : fs / 2 ≠ 0 := h2.ne'
+  refine ⟨fun hl hu => ?_, ?_, fun hl => ?_⟩
+  · have h1 : 0 < lb / (fs / 2) := div_pos hl h2
+    have h3 : ub / (fs / 2) < 1 := by rw [div_lt_one h2]; exact hu
+    refine ⟨?_, by field_simp, by field_simp⟩
+    simp only [iirPlan, firBandFractions, h1, h3, and_self, if_true, Option.map_some]
+  · by_cases h : ub / (fs / 2) < 1 <;> simp [iirPlan, firBandFractions, h]
+  · have h1 : 0 < lb / (fs / 2) := div_pos hl h2
+    have h3 : ¬ lb / (fs / 2) < 0 := not_lt.2 h1.le
+    simp [iirPlan, firBandFractions, h1, h3]
 
 end fir
 
